@@ -257,8 +257,9 @@ def S.startHandler (s : S) (i : Nat) (k : HKind) : S :=
   | .closer fa =>
     -- `fa` is the force_after argument here; the record stores the absolute deadline
     let s1 : S := { s with handlers := s.handlers ++ [⟨i, .closer (s.now + fa), .run⟩] }
-    -- timeout_after(0): the timer is due at once, before a graceful close can complete
-    if fa == 0 then (S.transportClose s1).doAbort else S.transportClose s1
+    -- timeout_after(0): the timer is due at once, before a graceful close can complete, so
+    -- `abort()` follows the `close()` in the same instant (the pair acts like the abort alone)
+    if fa == 0 then s1.doAbort else S.transportClose s1
 
 def step (s : S) : Event → S
   | .request i k =>
@@ -279,7 +280,8 @@ def step (s : S) : Event → S
       { s with closers := s.closers ++ [⟨c, s.now + fa, .returned s.now⟩] }
     else if fa == 0 then
       -- timeout_after(0): the timer is due at once, before a graceful close can complete
-      (S.transportClose { s with closers := s.closers ++ [⟨c, s.now, .abortedWaiting⟩] }).doAbort
+      -- (close() and abort() in the same instant act like the abort alone)
+      S.doAbort { s with closers := s.closers ++ [⟨c, s.now, .abortedWaiting⟩] }
     else S.transportClose { s with closers := s.closers ++ [⟨c, s.now + fa, .waiting⟩] }
   | .abort => s.doAbort
   | .advance dt => s.advance dt
